@@ -1,5 +1,8 @@
 import Memterm.Check
 import Memterm.Props.Exec
+import Memterm.Cover
+import Memterm.Sparse
+import Std.Data.HashMap
 
 /-
   mtdriver: reads the transition log written by the Rust harness (states
@@ -28,6 +31,10 @@ structure Counters where
   perCall : List (String × Nat × Nat) := []   -- name, count, nontrivial
   geoms : List (Nat × Nat) := []
   samples : List String := []
+  tags : Std.HashMap String Nat := {}
+  rawSame : Nat := 0
+  rawDiff : Nat := 0
+  rawSamples : List String := []
 
 def Counters.bump (c : Counters) (name : String) (nontriv : Bool) : Counters :=
   let rec go : List (String × Nat × Nat) → List (String × Nat × Nat)
@@ -85,6 +92,31 @@ def checkState (st : St) (d : Dump) (call : String) : IO St := do
 
 def strOfCps (l : List Nat) : String := String.ofList (l.map Char.ofNat)
 
+/-- the raw buffer of a dumped state as a sparse-model buffer -/
+def Memterm.Dump.toSparse (d : Dump) : Sparse.SScreen :=
+  { s := d.toScreen,
+    buf := d.rowKeys.map fun y => (y, (d.cells.toList.filter (fun (y', _, _) => y' == y)).map fun (_, x, c) => (x, c)) }
+
+/-- canonical form of a buffer: rows and cells sorted by key -/
+def canonBuf (b : Sparse.Buf) : List (Nat × List (Nat × Cell)) :=
+  let sortK {α : Type} (l : List (Nat × α)) : List (Nat × α) := (l.toArray.qsort (fun a b => a.1 < b.1)).toList
+  (sortK b).map fun (y, row) => (y, sortK row)
+
+/-- where the sparse model's buffer after `c` differs from the implementation's (keys only, then cells) -/
+def rawDiffs (env : Env) (pre : Dump) (c : Call) (post : Dump) : List String :=
+  let m := canonBuf (Sparse.step env pre.toSparse c).buf
+  let i := canonBuf post.toSparse.buf
+  if m == i then []
+  else
+    let mk := m.map (·.1)
+    let ik := i.map (·.1)
+    if mk != ik then [s!"row keys: model {mk} impl {ik}"]
+    else
+      (m.zip i).filterMap fun ((y, a), (_, b)) =>
+        if a == b then none
+        else if a.map (·.1) != b.map (·.1) then some s!"row {y} cell keys: model {a.map (·.1)} impl {b.map (·.1)}"
+        else some s!"row {y}: same keys, different cells"
+
 def checkTransition (st : St) (pre : Dump) (c : Call) (post : Dump) : IO St := do
   let mut st := st
   let env := st.env
@@ -96,6 +128,16 @@ def checkTransition (st : St) (pre : Dump) (c : Call) (post : Dump) : IO St := d
   st := { st with cnt := st.cnt.bump c.name nontriv }
   if st.cnt.samples.length < 6 && nontriv && st.cnt.transitions % 97 == 1 then
     st := { st with cnt := { st.cnt with samples := s!"{st.session}#{st.opIndex}:{reprStr c}" :: st.cnt.samples } }
+  -- measurement (never a finding): model branches compared, raw-buffer agreement of the sparse layer
+  let mut tg := st.cnt.tags
+  for t in Cover.tags env s0 c do
+    tg := tg.insert t (tg.getD t 0 + 1)
+  let rd := rawDiffs env pre c post
+  let rs := if !rd.isEmpty && st.cnt.rawSamples.length < 5 then
+      s!"{st.session}#{st.opIndex}:{c.name}:{rd.head!}" :: st.cnt.rawSamples else st.cnt.rawSamples
+  let nSame := if rd.isEmpty then st.cnt.rawSame + 1 else st.cnt.rawSame
+  let nDiff := if rd.isEmpty then st.cnt.rawDiff else st.cnt.rawDiff + 1
+  st := { st with cnt := { st.cnt with tags := tg, rawSame := nSame, rawDiff := nDiff, rawSamples := rs } }
   if !diffs.isEmpty then
     st ← emit st "CORR" c.name (String.intercalate "," diffs)
   if !ddirty.isEmpty then
@@ -256,6 +298,11 @@ def main (args : List String) : IO UInt32 := do
     IO.println s!"SUMMARY sessions={c.sessions} states={c.states} transitions={c.transitions} nontrivial={c.nontrivial} feeds={c.feeds} events={c.events} findings={c.findings}"
     IO.println s!"PERCALL {per}"
     IO.println s!"GEOMS {geoms}"
+    let tagl := String.intercalate ";" (c.tags.toList.map fun (k, v) => s!"{k}={v}")
+    IO.println s!"TAGS {tagl}"
+    IO.println s!"RAW same={c.rawSame} diff={c.rawDiff}"
+    for s in c.rawSamples do
+      IO.println s!"RAWSAMPLE {s}"
     for s in c.samples do
       IO.println s!"SAMPLE {s}"
     return 0
